@@ -112,7 +112,7 @@ def isolated_copy_ops(chk: Check, rule: str, proj: Project) -> None:
                             todo.append((r[2], ps[idx], r[2].name))
                 elif isinstance(p, ast.Return):
                     pass
-    chk.floor(rule + "-ops", count, 4)
+    chk.floor(rule + "-ops", count, 3)
 
 
 def partial_stack_views(chk: Check, rule: str, proj: Project, funcs: List[Tuple[str, str]]) -> None:
